@@ -99,6 +99,12 @@ func TxnHistory(e *Env, store *FlakyStore, steps int) {
 			e.Trace.Write(V{"fn": "snapcheck", "hist": e.Hist, "step": e.Step, "id": s.id, "kind": s.kind, "pre": s.dump, "post": e.dumpCat(s.cat)})
 		}
 	}
+	// a second session: it runs whole transactions through WithTransaction when the writer slot is free and must be
+	// refused (within its context's deadline, without running the callback) while the first session holds the slot
+	second, serr := e.Client.StartSession()
+	if serr == nil {
+		defer second.EndSession(plainCtx)
+	}
 	e.Client.UseSession(plainCtx, func(sc lungo.ISessionContext) error {
 		sess := sc.(lungo.SessionContext).Session
 		inTxn := func() bool { return sess.Transaction() != nil }
@@ -155,6 +161,61 @@ func TxnHistory(e *Env, store *FlakyStore, steps int) {
 				err := sc.AbortTransaction(sc)
 				e.Step++
 				e.Trace.Write(V{"fn": "txn", "hist": e.Hist, "step": e.Step, "what": "abort", "err": err != nil, "cpre": cpre, "cpost": e.dumpCat(e.Engine.Catalog()), "wpre": wpre, "wpost": wpre})
+			case r < 66 && second != nil:
+				s2 := second.(*lungo.Session)
+				if inTxn() {
+					ctx, cancel := context.WithTimeout(plainCtx, 50*time.Millisecond)
+					cpre := e.dumpCat(e.Engine.Catalog())
+					wpre := e.dumpCat(working())
+					ran := false
+					_, err := s2.WithTransaction(ctx, func(lungo.ISessionContext) (interface{}, error) { ran = true; return nil, nil })
+					cancel()
+					e.Step++
+					e.Trace.Write(V{"fn": "blocked", "hist": e.Hist, "step": e.Step, "op": "withTransaction", "isread": false, "err": err != nil && !ran, "cpre": cpre,
+						"cpost": e.dumpCat(e.Engine.Catalog()), "wpre": wpre, "wpost": e.dumpCat(working())})
+					continue
+				}
+				var wend, cend V
+				commit := g.P(65)
+				failing := false
+				_, err := s2.WithTransaction(plainCtx, func(sc2 lungo.ISessionContext) (interface{}, error) {
+					for k := 0; k <= g.N(3); k++ {
+						c := e.RandomCall()
+						for tries := 0; tries < 20 && ddl[c.Op]; tries++ {
+							c = e.RandomCall()
+						}
+						if ddl[c.Op] {
+							continue
+						}
+						e.View, e.Ctx, e.Actor = func() *lungo.Catalog {
+							if t := s2.Transaction(); t != nil {
+								return t.Catalog()
+							}
+							return nil
+						}, sc2, "session"
+						e.Do(c)
+						e.View, e.Ctx, e.Actor = nil, plainCtx, ""
+					}
+					wend = e.dumpCat(s2.Transaction().Catalog())
+					cend = e.dumpCat(e.Engine.Catalog())
+					if !commit {
+						return nil, errors.New("give up")
+					}
+					store.FailNext = g.P(25)
+					failing = store.FailNext
+					return nil, nil
+				})
+				dirtyFail := failing && !store.FailNext
+				store.FailNext = false
+				e.Step++
+				if commit {
+					e.Trace.Write(V{"fn": "txn", "hist": e.Hist, "step": e.Step, "what": "commit", "err": err != nil, "storefail": dirtyFail, "cpre": cend, "cpost": e.dumpCat(e.Engine.Catalog()), "wpre": wend, "wpost": wend})
+				} else {
+					e.Trace.Write(V{"fn": "txn", "hist": e.Hist, "step": e.Step, "what": "abort", "err": false, "cpre": cend, "cpost": e.dumpCat(e.Engine.Catalog()), "wpre": wend, "wpost": wend})
+				}
+				if s2.Transaction() != nil {
+					e.finding("txn-state", "WithTransaction returned but the session still has an open transaction", nil)
+				}
 			case r < 75:
 				// plain read on the committed state
 				ns := e.pickNS()
